@@ -42,9 +42,9 @@ Proof. reflexivity. Qed.
 Lemma sed_plain c r : N.eqb c 92 = false -> negb (N.eqb c 47) = true -> run sed_alt true (c :: r) = Some ([c], [], r).
 Proof.
   intros H92 H47. apply negb_true_iff in H47.
-  unfold sed_alt, r_sed_escaped_char, r_sed_normal_char. cbn [run seq_res strip_prefix].
-  rewrite (N.eqb_sym 92 c), H92. cbn [run seq_res strip_prefix].
-  rewrite (N.eqb_sym 47 c), H47. cbn [run seq_res strip_prefix]. reflexivity.
+  unfold sed_alt, r_sed_escaped_char, r_sed_normal_char.
+  do 5 (cbn [run seq_res strip_prefix]; rewrite ?(N.eqb_sym 92 c), ?(N.eqb_sym 47 c), ?H92, ?H47).
+  reflexivity.
 Qed.
 Lemma sed_stop t : run sed_alt true (47 :: t) = None.
 Proof. reflexivity. Qed.
@@ -121,7 +121,7 @@ Proof.
 Qed.
 
 (* ---- regex arguments at top level ------------------------------------------------------------- *)
-Definition starts_kw (t : str) : Prop := exists x, run r_operation_keyword true t = Some x.
+Definition starts_kw (t : str) : Prop := exists x, run kw_alt true t = Some x.
 (* what must follow a regex argument at top level: the end of the block, or "|" and a keyword *)
 Definition ktop_stops (rest : str) : Prop := rest = [125] \/ exists t, rest = 124 :: t /\ starts_kw t.
 (* ... and inside map:{...}: the "}" that closes the map body, or "|" and a keyword *)
@@ -140,17 +140,16 @@ Proof. reflexivity. Qed.
 Lemma regex_plain c r : N.eqb c 92 = false -> negb (arg_special c) = true -> run regex_alt true (c :: r) = Some ([c], [], r).
 Proof.
   intros H92 Hs. apply negb_true_iff in Hs. unfold arg_special in Hs. repeat rewrite orb_false_iff in Hs. destruct Hs as [[[[H1 H2] H3] H4] H5].
-  unfold regex_alt, r_regex_escaped_char, r_regex_content. cbn [run seq_res strip_prefix].
-  rewrite (N.eqb_sym 92 c), H92. cbn [run seq_res strip_prefix].
-  rewrite (N.eqb_sym 58 c), H1. cbn [run seq_res strip_prefix].
-  rewrite (N.eqb_sym 124 c), H2. cbn [run seq_res strip_prefix].
-  rewrite (N.eqb_sym 125 c), H4. reflexivity.
+  unfold regex_alt, r_regex_escaped_char, r_regex_content.
+  do 6 (cbn [run seq_res strip_prefix];
+        rewrite ?(N.eqb_sym 92 c), ?(N.eqb_sym 58 c), ?(N.eqb_sym 124 c), ?(N.eqb_sym 125 c), ?H92, ?H1, ?H2, ?H4).
+  reflexivity.
 Qed.
 Lemma regex_stop_end : run regex_alt true [125] = None.
 Proof. reflexivity. Qed.
 Lemma regex_stop_pipe t : starts_kw t -> run regex_alt true (124 :: t) = None.
 Proof.
-  intros (x & Hx). unfold regex_alt. rewrite run_alt.
+  intros (x & Hx). cbv [kw_alt r_split_content] in Hx. unfold regex_alt. rewrite run_alt.
   assert (H1 : run r_regex_escaped_char true (124 :: t) = None) by reflexivity. rewrite H1.
   unfold r_regex_content. rewrite run_rule_normal_atomic, run_seq, run_not, run_seq.
   rewrite (str_fail_head [] 58 true 124 t eq_refl), seq_res_none, seq_res_some, run_seq, run_not, run_seq.
@@ -230,7 +229,7 @@ Lemma mregex_stop_close_close t : run mregex_alt true (125 :: 125 :: t) = None.
 Proof. reflexivity. Qed.
 Lemma mregex_stop_pipe t : starts_kw t -> run mregex_alt true (124 :: t) = None.
 Proof.
-  intros (x & Hx). unfold mregex_alt. rewrite !run_alt.
+  intros (x & Hx). cbv [kw_alt r_split_content] in Hx. unfold mregex_alt. rewrite !run_alt.
   assert (H1 : run r_map_regex_escaped_char true (124 :: t) = None) by reflexivity. rewrite H1.
   assert (H2 : run r_map_regex_brace true (124 :: t) = None) by reflexivity. rewrite H2.
   unfold r_map_regex_content. rewrite run_rule_normal_atomic, run_seq, run_not, run_seq.
